@@ -91,8 +91,8 @@ class C07(frame.Findings, core.Check):
     pid = 'C07'
     title = 'TensorFrame row selection is coherent across all stypes and the target'
     driver = 'drv_c07'
-    quick_cases = 1500
-    thorough_cases = 20000
+    quick_cases = 4000
+    thorough_cases = 30000
     rule = ('random TensorFrames (0-6 rows; 0-5 of the 9 stypes in random dict order: dense 2-D float/int, dense 3-D, '
             'MultiNestedTensor int/float, MultiEmbeddingTensor, dict-valued text_tokenized; 1-3 columns each; with/without y; '
             'explicit num_rows; feature-less frames) x programs of 1-5 steps: row selections from the IndexSelectType '
